@@ -155,4 +155,22 @@ theorem Rewrites.subject_eq {cfg : Config} {s obj : String} {e : Expr} {m : Trip
   | ttu => rfl
   | union _ _ _ _ _ ih => exact ih
 
+/-- derivability does not look at the limits -/
+theorem Rewrites.congr {cfg cfg' : Config} (ht : cfg'.tuples = cfg.tuples) (hg : cfg'.reg = cfg.reg)
+    {s obj : String} {e : Expr} {m : Triple} (h : Rewrites cfg s obj e m) : Rewrites cfg' s obj e m := by
+  induction h with
+  | computed r => exact .computed r
+  | ttu ts cu t h1 h2 h3 h4 h5 => exact .ttu ts cu t (by rw [ht]; exact h1) h2 h3 h4 (by rw [hg]; exact h5)
+  | union es e m he _ ih => exact .union es e m he ih
+
+theorem Derivable.congr {cfg cfg' : Config} (ht : cfg'.tuples = cfg.tuples) (hr : cfg'.rules = cfg.rules)
+    (hg : cfg'.reg = cfg.reg) {d : Nat} {n : Triple} (h : Derivable cfg d n) : Derivable cfg' d n := by
+  induction h with
+  | direct hs =>
+    obtain ⟨t, h1, h2, h3, h4, h5⟩ := hs
+    exact .direct ⟨t, by rw [ht]; exact h1, h2, h3, h4, by rw [hg]; exact h5⟩
+  | step hrw _ ih =>
+    obtain ⟨e, he, hrw⟩ := hrw
+    exact .step ⟨e, by rw [hr]; exact he, hrw.congr ht hg⟩ ih
+
 end Rbacx.Rebac
